@@ -197,6 +197,14 @@ var entries = []entry{
 		plain: func(sql string) (string, bool, error) {
 			return render(parser.NewParser().ParseFromModelTokens(mustTokens(sql)))
 		}},
+	// the same pair on a parser configured to reject empty statements: the configuration is part of the call
+	{name: "Parser[strict].ParseContextFromModelTokens", parser: true,
+		call: func(ctx context.Context, sql string, _ *parser.Parser, _ *tokenizer.Tokenizer) (string, bool, error) {
+			return render(parser.NewParser(parser.WithStrictMode()).ParseContextFromModelTokens(ctx, mustTokens(sql)))
+		},
+		plain: func(sql string) (string, bool, error) {
+			return render(parser.NewParser(parser.WithStrictMode()).ParseFromModelTokens(mustTokens(sql)))
+		}},
 	{name: "Tokenizer.TokenizeContext",
 		call: func(ctx context.Context, sql string, _ *parser.Parser, t *tokenizer.Tokenizer) (string, bool, error) {
 			toks, err := t.TokenizeContext(ctx, []byte(sql))
@@ -253,7 +261,7 @@ func main() {
 	stmts = append(stmts, exprStatements()...)
 	stmts = append(stmts, longInput(110))
 	// inputs without a statement: the statement loop has nothing to iterate over
-	stmts = append(stmts, "", " \n\t ", "-- only a comment\n", "/* only a comment */", ";", " ; ; ")
+	stmts = append(stmts, "", " \n\t ", "-- only a comment\n", "/* only a comment */", ";", " ; ; ", "SELECT 1;; SELECT 2", "; SELECT 1", "SELECT 1;;")
 	// characters in front of and behind a statement that an input layer may treat specially (byte-order mark,
 	// no-break and zero-width space, form feed, vertical tab, NUL): whatever the context-free call makes of them,
 	// the context-aware call with a context that never fires makes the same
@@ -311,7 +319,7 @@ func main() {
 	}
 	for _, e := range entries {
 		for _, sql := range stmts {
-			if strings.HasPrefix(e.name, "Parser.") && textOnly[sql] {
+			if strings.HasPrefix(e.name, "Parser") && textOnly[sql] {
 				continue
 			}
 			plainRes, _, _ := e.plain(sql)
